@@ -1,0 +1,281 @@
+//go:build verif
+
+// Contracts for the verification machinery in /verif (comment only).
+// Instantiated from /verif/tools/gen_typed_layer_contracts.py for apps/v1.DaemonSet (package daemonset).
+package daemonset
+
+/*@ nonnil-global types/daemonset.ErrInvalidType
+@*/
+/*@ immutable types/daemonset.subscription.parent types/daemonset.subscription.outch types/daemonset.subscription.cache
+  types/daemonset.cache.parent types/daemonset.controller.parent types/daemonset.controller.cache types/daemonset.filterController.filterParent
+  types/daemonset.filterSubscription.filterParent
+@*/
+/*@ nonblocking-send types/daemonset.subscription.outch
+@*/
+
+/*@ theory daemonsettyped
+;; theory lists wiring
+;; uses types/daemonset.event
+(define-fun isT ((o V)) Bool (and (not (= o vnil)) (= (dyntype o) |ty!*apps/v1.DaemonSet|)))
+(declare-fun tevt-type (V) Str)
+(declare-fun tevt-res (V) V)
+(declare-fun |box!types/daemonset.event| (|S!types/daemonset.event|) V)
+(declare-fun |unbox!types/daemonset.event| (V) |S!types/daemonset.event|)
+(assert (forall ((e |S!types/daemonset.event|)) (! (and (= (tevt-type (|box!types/daemonset.event| e)) (|types/daemonset.event.etype| e))
+                                                  (= (tevt-res (|box!types/daemonset.event| e)) (|types/daemonset.event.resource| e)))
+                                             :pattern ((|box!types/daemonset.event| e)))))
+@*/
+
+/*@ iface types/daemonset.Event.Type
+  theory daemonsettyped
+  ensures (= result (tevt-type $recv))
+@*/
+/*@ iface types/daemonset.Event.Resource
+  theory daemonsettyped
+  ensures (= result (tevt-res $recv))
+@*/
+/*@ iface types/daemonset.BaseHandler.OnCreate
+@*/
+/*@ iface types/daemonset.BaseHandler.OnUpdate
+@*/
+/*@ iface types/daemonset.BaseHandler.OnDelete
+@*/
+/*@ iface types/daemonset.Handler.OnInitialize
+@*/
+/*@ iface types/daemonset.UnitaryHandler.OnInitialize
+@*/
+
+/*@ func (types/daemonset._adapter).adaptObject
+  props C20
+  theory daemonsettyped
+  ensures [succeeds-exactly-on-objects-of-this-type] (= (= result1 vnil) (isT {obj}))
+  ensures [returns-the-same-object] (= result0 (ite (isT {obj}) {obj} vnil))
+@*/
+
+/*@ func (types/daemonset._adapter).adaptList
+  props C20
+  theory daemonsettyped
+  ghost src : (Array Int Int) := ((as const (Array Int Int)) 0)
+  ghost ridx : (Array Int Int) := ((as const (Array Int Int)) 0)
+  at append(ret) set src := (store src (slen {ret}) {rangeindex})
+  at append(ret) set ridx := (store ridx {rangeindex} (slen {ret}))
+  loop 1 inv [range] (and (<= 0 (+ {rangeindex} 1)) (<= (+ {rangeindex} 1) (slen {objs})))
+  loop 1 inv [every-result-is-an-object-of-this-type-in-order] (forall ((q Int)) (=> (and (<= 0 q) (< q (slen {ret})))
+        (and (<= 0 (select src q)) (< (select src q) (+ {rangeindex} 1)) (= (select (sarr {ret}) q) (select (sarr {objs}) (select src q)))
+             (isT (select (sarr {ret}) q)) (=> (> q 0) (< (select src (- q 1)) (select src q))))))
+  loop 1 inv [every-object-of-this-type-is-in-the-result] (forall ((j Int)) (=> (and (<= 0 j) (< j (+ {rangeindex} 1)) (isT (select (sarr {objs}) j)))
+        (and (<= 0 (select ridx j)) (< (select ridx j) (slen {ret})) (= (select src (select ridx j)) j))))
+  ensures [never-fails] (= result1 vnil)
+  ensures [objects-of-this-type-only] (forall ((q Int)) (=> (and (<= 0 q) (< q (slen result0))) (isT (select (sarr result0) q))))
+  ensures [foreign-objects-are-skipped-nothing-else] (forall ((j Int)) (=> (and (<= 0 j) (< j (slen {objs})) (isT (select (sarr {objs}) j)))
+        (exists ((q Int)) (and (<= 0 q) (< q (slen result0)) (= (select (sarr result0) q) (select (sarr {objs}) j))))))
+  ensures [nothing-invented] (forall ((q Int)) (=> (and (<= 0 q) (< q (slen result0)))
+        (exists ((j Int)) (and (<= 0 j) (< j (slen {objs})) (= (select (sarr result0) q) (select (sarr {objs}) j))))))
+@*/
+
+/*@ func (*types/daemonset.cache).Get
+  props C20
+  theory daemonsettyped
+  requires (and (not (= {c} vnil)) (not (= {c.parent} vnil)))
+  ghost pobj : V := vnil
+  ghost perr : V := vnil
+  at call(Get) assert [asks-the-untyped-cache-for-the-same-key] (and (= $recv {c.parent}) (= $0 {ns}) (= $1 {name}))
+  at call(Get).after set pobj := $result0
+  at call(Get).after set perr := $result1
+  exit [errors-are-propagated] (=> (not (= perr vnil)) (and (= result1 perr) (= result0 vnil)))
+  exit [absent-is-nil-nil] (=> (and (= perr vnil) (= pobj vnil)) (and (= result0 vnil) (= result1 vnil)))
+  exit [present-object-of-this-type-is-returned] (=> (and (= perr vnil) (isT pobj)) (and (= result0 pobj) (= result1 vnil)))
+@*/
+/*@ func (*types/daemonset.cache).List
+  props C20
+  theory daemonsettyped
+  requires (and (not (= {c} vnil)) (not (= {c.parent} vnil)))
+  at call(List) assert [lists-the-untyped-cache] (= $recv {c.parent})
+@*/
+
+/*@ func types/daemonset.newCache
+  props C20
+  theory daemonsettyped
+  fresh result
+  ensures (and (not (= result vnil)) (= (|F!types/daemonset.cache!parent| result) {parent}))
+@*/
+/*@ func types/daemonset.newController
+  props C20
+  theory daemonsettyped
+  fresh result
+  requires (not (= {parent} vnil))
+  ensures (and (not (= result vnil)) (= (|F!types/daemonset.controller!parent| result) {parent}))
+@*/
+
+/*@ func types/daemonset.wrapEvent
+  props C20
+  theory daemonsettyped
+  requires (not (= {evt} vnil))
+  ensures [succeeds-exactly-on-events-about-objects-of-this-type] (= (= result1 vnil) (isT (evt-res {evt})))
+  ensures [same-type-and-object] (=> (= result1 vnil) (and (not (= result0 vnil)) (= (tevt-type result0) (evt-type {evt})) (= (tevt-res result0) (evt-res {evt}))))
+@*/
+/*@ func (types/daemonset.event).Type
+  props C20
+  theory daemonsettyped
+  implements types/daemonset.Event.Type
+@*/
+/*@ func (types/daemonset.event).Resource
+  props C20
+  theory daemonsettyped
+  implements types/daemonset.Event.Resource
+@*/
+
+/*@ func types/daemonset.newSubscription
+  props C20 C11
+  theory daemonsettyped
+  fresh result
+  requires (not (= {parent} vnil))
+  at go(run) assert [run-starts-with-fresh-state] (and (= {s.parent} {parent}) (not (= {s.outch} vnil)) (not {closed(s.outch)}))
+  ensures (and (not (= result vnil)) (= (|F!types/daemonset.subscription!parent| result) {parent}))
+@*/
+
+/*@ func (*types/daemonset.subscription).run
+  props C20 C05 C10 C11
+  theory daemonsettyped
+  requires [valid-s] (and (not (= {s} vnil)) (not (= {s.parent} vnil)) (not (= {s.outch} vnil)) (not {closed(s.outch)}))
+  ghost nrcv : Int := 0
+  ghost nsent : Int := 0
+  ghost ndrop : Int := 0
+  ghost nskip : Int := 0
+  ghost lastIn : V := vnil
+  ghost lastOut : V := vnil
+  at recv(Events) assume [parent-events-are-non-nil] (=> $ok (not (= $val vnil)))
+  at recv(Events) set nrcv := (+ nrcv (ite $ok 1 0))
+  at recv(Events) set lastIn := $val
+  at call(wrapEvent) assert [wraps-the-event-just-received] (= $0 lastIn)
+  at call(wrapEvent).after set nskip := (+ nskip (ite (= $result1 vnil) 0 1))
+  at call(wrapEvent).after set lastOut := $result0
+  at send(s.outch) assert [forwards-the-wrapped-event] (= $val lastOut)
+  at send(s.outch) set nsent := (+ nsent 1)
+  at default set ndrop := (+ ndrop 1)
+  at close(s.outch) assert [closed-when-the-parent-stream-ended] (= nrcv (+ nsent ndrop nskip))
+  loop 1 inv [every-event-is-forwarded-skipped-as-foreign-or-dropped-on-overflow] (and (= nrcv (+ nsent ndrop nskip)) (not {closed(s.outch)}))
+@*/
+
+/*@ func (*types/daemonset.subscription).Ready
+  props C20 C08
+  theory daemonsettyped
+  requires (and (not (= {s} vnil)) (not (= {s.parent} vnil)))
+  ensures (= result (sub-ready {s.parent}))
+@*/
+/*@ func (*types/daemonset.subscription).Done
+  props C20 C11
+  theory daemonsettyped
+  requires (and (not (= {s} vnil)) (not (= {s.parent} vnil)))
+  ensures (= result (sub-done {s.parent}))
+@*/
+/*@ func (*types/daemonset.subscription).Close
+  props C20 C11
+  requires (and (not (= {s} vnil)) (not (= {s.parent} vnil)))
+  at call(Close) assert [closes-its-own-untyped-subscription] (= $recv {s.parent})
+@*/
+/*@ func (*types/daemonset.subscription).Events
+  props C20
+  requires (and (not (= {s} vnil)) (not (= {s.outch} vnil)))
+  ensures (= result {s.outch})
+@*/
+/*@ func (*types/daemonset.controller).Ready
+  props C20 C08
+  theory daemonsettyped
+  requires (and (not (= {c} vnil)) (not (= {c.parent} vnil)))
+  ensures (= result (sub-ready {c.parent}))
+@*/
+/*@ func (*types/daemonset.controller).Done
+  props C20 C11
+  theory daemonsettyped
+  requires (and (not (= {c} vnil)) (not (= {c.parent} vnil)))
+  ensures (= result (sub-done {c.parent}))
+@*/
+/*@ func (*types/daemonset.controller).Close
+  props C20 C11
+  requires (and (not (= {c} vnil)) (not (= {c.parent} vnil)))
+  at call(Close) assert [closes-its-own-untyped-controller] (= $recv {c.parent})
+@*/
+/*@ func (*types/daemonset.controller).Error
+  props C20
+  requires (and (not (= {c} vnil)) (not (= {c.parent} vnil)))
+  at call(Error) assert [reports-the-untyped-controllers-error] (= $recv {c.parent})
+@*/
+/*@ func (*types/daemonset.controller).Subscribe
+  props C20
+  theory daemonsettyped
+  requires (and (not (= {c} vnil)) (not (= {c.parent} vnil)))
+  ghost perr : V := vnil
+  at call(Subscribe) assert [subscribes-to-its-own-untyped-controller] (= $recv {c.parent})
+  at call(Subscribe).after set perr := $result1
+  exit [errors-are-propagated] (=> (not (= perr vnil)) (and (= result1 perr) (= result0 vnil)))
+  exit [success-wraps-the-new-subscription] (=> (= perr vnil) (and (= result1 vnil) (not (= result0 vnil))))
+@*/
+/*@ func (*types/daemonset.controller).CloneForFilter
+  props C20 C09
+  theory daemonsettyped
+  requires (and (not (= {c} vnil)) (not (= {c.parent} vnil)))
+  ghost perr : V := vnil
+  at call(CloneForFilter) assert [clones-its-own-untyped-controller] (= $recv {c.parent})
+  at call(CloneForFilter).after set perr := $result1
+  exit [errors-are-propagated] (=> (not (= perr vnil)) (and (= result1 perr) (= result0 vnil)))
+  exit [success-wraps-the-clone] (=> (= perr vnil) (and (= result1 vnil) (not (= result0 vnil))))
+@*/
+/*@ func types/daemonset.newFilterController
+  props C20 C09
+  theory daemonsettyped
+  fresh result
+  requires (not (= {parent} vnil))
+  ensures (and (not (= result vnil)) (= (|F!types/daemonset.filterController!filterParent| result) {parent}))
+@*/
+/*@ func (*types/daemonset.filterController).Refilter
+  props C20 C09
+  requires (and (not (= {c} vnil)) (not (= {c.filterParent} vnil)) (not (= {f} vnil)))
+  at call(Refilter) assert [refilters-the-untyped-clone-with-the-given-filter] (and (= $recv {c.filterParent}) (= $0 {f}))
+@*/
+/*@ func (*types/daemonset.filterSubscription).Refilter
+  props C20
+  requires (and (not (= {s} vnil)) (not (= {s.filterParent} vnil)) (not (= {f} vnil)))
+  at call(Refilter) assert [refilters-the-untyped-subscription-with-the-given-filter] (and (= $recv {s.filterParent}) (= $0 {f}))
+@*/
+
+/*@ func types/daemonset.NewMonitor$1
+  props C20 C16
+  theory daemonsettyped
+  requires (not (= {handler} vnil))
+  at call(OnInitialize) assert [initialises-with-the-objects-of-this-type] true
+@*/
+/*@ func types/daemonset.NewMonitor$2
+  props C20 C16
+  theory daemonsettyped
+  requires (not (= {handler} vnil))
+  ghost adapted : Bool := false
+  at call(adaptObject).after set adapted := (= $result1 vnil)
+  at call(OnCreate) assert [foreign-objects-are-skipped] adapted
+  at call(OnCreate) assert [same-object] (= $0 {obj})
+@*/
+/*@ func types/daemonset.NewMonitor$3
+  props C20 C16
+  theory daemonsettyped
+  requires (not (= {handler} vnil))
+  ghost adapted : Bool := false
+  at call(adaptObject).after set adapted := (= $result1 vnil)
+  at call(OnUpdate) assert [foreign-objects-are-skipped] adapted
+  at call(OnUpdate) assert [same-object] (= $0 {obj})
+@*/
+/*@ func types/daemonset.NewMonitor$4
+  props C20 C16
+  theory daemonsettyped
+  requires (not (= {handler} vnil))
+  ghost adapted : Bool := false
+  at call(adaptObject).after set adapted := (= $result1 vnil)
+  at call(OnDelete) assert [foreign-objects-are-skipped] adapted
+  at call(OnDelete) assert [same-object] (= $0 {obj})
+@*/
+
+/*@ func types/daemonset.NewClient
+  props C20
+  requires (not (= {cs} vnil))
+  at call(AppsV1) assert [uses-the-api-group-of-this-type] (= $recv {cs})
+  at call(ForResource) assert [lists-and-watches-the-resource-of-this-type-in-the-requested-namespace] (and (= $1 "daemonsets") (= $2 {ns}))
+@*/
